@@ -40,10 +40,24 @@ def cause_is_nsimplify(text, stack):
         return False
 
 
+PLAIN = set("0123456789.")
+
+
 def observe(text):
+    from vyxal.lexer import tokenise
+
+    from . import project
+
+    try:
+        toks = project.toks(tokenise(text))
+    except Exception as e:  # noqa: BLE001
+        toks = [{"k": "lexer-raised:" + type(e).__name__, "v": []}]
+    if not set(text) <= PLAIN:
+        # a literal directly followed by something else: only the scanning is observed (nothing is run)
+        return {"a": cps(text), "vals": [], "err": "", "toks": toks, "lexonly": True}
     stack, ctx, err = runner.exec_text(text)
     vals = [runner.num_json(v) for v in (stack or [])]
-    return {"a": cps(text), "vals": vals, "err": err or ""}
+    return {"a": cps(text), "vals": vals, "err": err or "", "toks": toks, "lexonly": False}
 
 
 def cases(tier, rng):
@@ -67,6 +81,13 @@ def cases(tier, rng):
     out += ["0.1", "0.30", "1.50", ".5", "5.", ".", "0", "00", "0.0.0", "1..2", "3.14159265358979323846",
             "0.000000000000000001", "123456789012345678901234567890", "0.3333333333333333", "2.675", "1.005",
             "9007199254740993", "0.1234567890123456789", "4.35", "1.1", "100.001", "0.7071067811865476"]
+    # a literal directly followed (and preceded) by every character of the code page: where the number ends
+    from vyxal.encoding import codepage
+    for lit in ["7", "12", "2.5", "0", "0.5", "5.", ".5", "10", "007", "1.", "90", "3.25"]:
+        for ch in codepage:
+            out.append(lit + ch)
+            out.append(lit + ch + lit)
+            out.append(ch + lit)
     return list(dict.fromkeys(out))
 
 
@@ -81,8 +102,8 @@ def main(tier):
         for name, mc in (("MC_Lexer", mc1), ("MC_BigNat", mc2)):
             if not mc["ok"]:
                 V.add(f"spec:{name}:{mc['violated']}", {"trace": tlc.counterexample(mc["out"])})
-        cs = cases(tier, rng)
         common.import_repo()
+        cs = cases(tier, rng)
         obs = common.pool_map(observe, cs, initfn=common.import_repo)
         verdicts, st = tlc.validate(s, "Trace_Number", obs, cfg="Trace_Number.cfg", chunk=6000)
     tally = {}
